@@ -769,12 +769,26 @@ class _ConnectionRecord(ConnectionPoolEntry):
         self.fairy_ref = None
         connection = self.dbapi_connection
         pool = self.__pool
-        while self.finalize_callback:
-            finalizer = self.finalize_callback.pop()
-            if connection is not None:
-                finalizer(connection)
-        if pool.dispatch.checkin:
-            pool.dispatch.checkin(connection, self)
+        try:
+            while self.finalize_callback:
+                finalizer = self.finalize_callback.pop()
+                if connection is not None:
+                    finalizer(connection)
+            if pool.dispatch.checkin:
+                pool.dispatch.checkin(connection, self)
+        except BaseException as e:
+            # the per-checkout state of the connection could not be reset
+            # (driver error, or an exit exception such as
+            # asyncio.CancelledError while the driver was awaited), or a
+            # checkin handler failed: the connection must not be handed out
+            # again as it is, and the record still has to go back to the
+            # pool, otherwise its slot is lost for good
+            self.finalize_callback.clear()
+            try:
+                self.invalidate(e)
+            finally:
+                pool._return_conn(self)
+            raise
 
         pool._return_conn(self)
 
